@@ -22,7 +22,7 @@ CLAIM = {
             "velocity + amount > limit, the window rotation (bucket shift and start_sec re-alignment) happens on every "
             "path before any return (so approved and refused requests age the window alike), start_sec is re-aligned "
             "to current_sec - current_sec % bucket_interval, nshift = (current_sec - start_sec)/bucket_interval capped "
-            "at len, and velocity() sums every bucket. Does not decide the sliding-window inequality itself "
+            "at len, and velocity() sums every bucket. (R12.5) the other save/load pair (the approver's control): get_state hands out the window start and the whole bucket vector, and load_from_state / with_state installs both components into the same fields, so a control rebuilt after a restart rotates from the saved start, not from 0. Does not decide the sliding-window inequality itself "
             "(arithmetic over arrival times). (R12.4) every approval that counts an amount in a velocity control persists "
             "the node state (update_node) before the success return, so the counted amount is in the store at restart.",
     "note": "rustc MIR; saturating arithmetic treated as addition; clock values trusted",
@@ -37,6 +37,7 @@ def run(ctx):
     r122(ctx)
     r123(ctx)
     r124(ctx)
+    r125(ctx)
 
 
 def r121(ctx, rid="R12.1"):
@@ -353,3 +354,56 @@ def r124(ctx, rid="R12.4"):
                    f"`{fn}` counts an amount against a velocity limit ({desc}, line {ln}) and returns success (line "
                    f"{r['line']}) without persisting the node state: a restart forgets the amount already counted",
                    where=f"{b.file}:{ln}")
+
+
+def r125(ctx, rid="R12.5"):
+    ctx.rule(rid, "VelocityControl::get_state / load_from_state are inverse on the counted window: get_state returns "
+                  "(start_sec, all buckets); with_state installs state.0 as start_sec and state.1 as buckets; "
+                  "load_from_state hands its whole state to with_state")
+    p = ctx.prog
+    gb = p.fn(f"{VC}::get_state")
+    gv = fnview(ctx, gb, policy=False)
+    parts = None
+    for r in gv.return_sites():
+        st = r.get("stmt")
+        if st is not None and st.rv.op in ("agg", "tuple") or (st is not None and "tuple" in repr(st.rv)):
+            parts = [render(peel(gv.expr(o))) for o in st.rv.ops]
+    ok = parts is not None and len(parts) == 2 and parts[0].endswith("self.start_sec") and \
+        (parts[1].endswith("clone(self.buckets)") or parts[1].endswith("self.buckets") or
+         parts[1].endswith("to_vec(self.buckets)"))
+    ctx.ob(rid, ok, f"{gb.name}/returns-window", f"get_state returns {parts} (expected the window start and the whole bucket vector): "
+           "a control rebuilt from it after a restart does not hold what was counted", where=f"{gb.file}:{gb.line}", sample=parts)
+    wb = p.fn(f"{VC}::with_state")
+    wv = fnview(ctx, wb, policy=False)
+    got = {}
+    whole = False
+    for bi in wv.live_blocks():
+        for st in wb.stmts(bi):
+            if st.kind != "a":
+                continue
+            for pr in st.place.proj:
+                if isinstance(pr, tuple) and pr[0] == "f" and pr[2] in ("start_sec", "buckets", "limit", "bucket_interval") and st.place.local == 1:
+                    got[pr[2]] = render(peel(wv.expr(st.rv.ops[0]))) if st.rv.ops else repr(st.rv)
+            if st.place.local == 1 and not st.place.proj and st.rv.op == "agg":
+                whole = True
+                for fname, op in zip(st.rv.a[3], st.rv.ops):
+                    got[fname] = render(peel(wv.expr(op)))
+    for fld, comp in (("start_sec", "state.0"), ("buckets", "state.1")):
+        ctx.ob(rid, got.get(fld, "").endswith(comp), f"{wb.name}/installs/{fld}",
+               f"with_state sets {fld} from `{got.get(fld)}` (expected {comp}): after a restart the control "
+               + ("rotates from second 0, so the first insert shifts every restored bucket out and the window restarts empty"
+                  if fld == "start_sec" else "has lost the amounts counted before the restart"),
+               where=f"{wb.file}:{wb.line}", sample=f"{fld} <- {comp}")
+    for fld in ("limit", "bucket_interval"):
+        ctx.ob(rid, fld not in got or got[fld].endswith("self." + fld), f"{wb.name}/keeps/{fld}",
+               f"with_state overwrites {fld} with `{got.get(fld)}`", where=f"{wb.file}:{wb.line}")
+    lb = p.fn(f"{VC}::load_from_state")
+    lv = fnview(ctx, lb, policy=False)
+    ws = R.call_blocks(lv, lambda n: n == f"{VC}::with_state")
+    ctx.ob(rid, len(ws) == 1, f"{lb.name}/uses-with_state", "load_from_state no longer installs the saved state through with_state",
+           where=f"{lb.file}:{lb.line}")
+    for bi, ln, c in ws:
+        a = [render(peel(lv.expr(x))) for x in c.args]
+        ctx.ob(rid, a[-1] == "state" and "VelocityControl::new(spec)" in a[0], f"{lb.name}/args",
+               f"load_from_state calls with_state({[x[:50] for x in a]}) (expected a control built from `spec` and the whole `state`)",
+               where=f"{lb.file}:{ln}", sample=[x[:50] for x in a])
